@@ -25,9 +25,9 @@ def run(ctx):
     suites.conformance(ctx, jobs[:ctx.budget(300, 2000)])
     import gen_special
     for w in ((2,) if ctx.quick else (2, 4)):
-        jobs += [('%s_%s_w%d' % (tag, a[0], w), src, a, w, 200, False, 300000) for tag, src, a in gen_special.preempt_programs() + gen_special.try_exit_programs()]
+        jobs += [('%s_%s_w%d' % (tag, a[0], w), src, a, w, 200, False, 300000) for tag, src, a in gen_special.preempt_programs() + gen_special.try_exit_programs() + gen_special.exprstmt_programs()]
     jobs += [j for j in core_jobs if not j[5]]
-    tally, bad, res = suites.differential(ctx, jobs, None, kinds_bad=(), do_shrink=False, label='checked', must_compile_prefixes=('pre_', 'int_', 'empty_', 'loop_', 'main_'))
+    tally, bad, res = suites.differential(ctx, jobs, None, kinds_bad=(), do_shrink=False, label='checked', must_compile_prefixes=('pre_', 'int_', 'empty_', 'loop_', 'main_', 'xs_'))
     faults = ('stack_overflow', 'division_by_zero', 'out_of_bounds', 'nonlocal_preempt')
     clean = [j for j in jobs if j[0] in res and 'vm' in res[j[0]] and res[j[0]]['vm'].outcome == 'terminal'
              and not any(f in res[j[0]]['vm'].flags for f in faults)]
